@@ -146,3 +146,10 @@ Theorem C08_double_inverse_wrapper_is_identity : forall (X L : Type) (t : tr X L
   fwd (inverse_of (inverse_of t)) x = fwd t x /\ inv (inverse_of (inverse_of t)) x = inv t x.
 Proof. intros. split; reflexivity. Qed.
 Print Assumptions C08_double_inverse_wrapper_is_identity.
+
+(* every part of a composite / multiscale / inverse wrapper is called with the wrapper's own context *)
+From NF Require Gen.Context.
+Theorem C08_wrappers_hand_the_context_to_every_part :
+  forallb (fun r => snd r) Gen.Context.wrappers_context_forwarding = true.
+Proof. reflexivity. Qed.
+Print Assumptions C08_wrappers_hand_the_context_to_every_part.
